@@ -19,7 +19,10 @@ PSpec == PInit /\ [][PNext]_vars
 
 Text == Render(v, o)
 
-Dump == PrintT(ToJson([k |-> "print", v |-> v, o |-> o, text |-> Text]))
+\* `preset`: the name of the documented preset this option record is (the library's constructor of that name must return
+\* exactly this record, and the convenience method of that name must print exactly this text)
+PresetName == IF o = Compact THEN "compact" ELSE IF o = Pretty THEN "pretty" ELSE IF o = Inline THEN "inline" ELSE ""
+Dump == PrintT(ToJson([k |-> "print", v |-> v, o |-> o, text |-> Text, preset |-> PresetName]))
 
 \* C04: the printed text is a strict document denoting the original value
 ParseOfPrint == LET r == Run(Text, Strict) IN r.mode = "done" /\ r.val = v
